@@ -41,3 +41,17 @@ Fixpoint events_from (cfg : config) (s : sys) (sch : list directive) : list (dir
     end
   end.
 Definition events (cfg : config) (sch : list directive) := events_from cfg (sys0 db0) sch.
+
+(* monitors that keep a state of their own (e.g. which request each coroutine id carries): the state is threaded
+   through the same fold *)
+Section HMon.
+  Variable M : Type.
+  Variable hstep : M -> Z -> db -> directive -> list obs -> M * list Z.
+  Fixpoint hmon_from (m : M) (now : Z) (d : db) (i : nat) (tr : list (directive * list obs)) : list viol :=
+    match tr with
+    | [] => []
+    | (dir, ob) :: tr' =>
+      let '(m', vs) := hstep m now d dir ob in
+      (map (fun c => (c, i)) vs ++ hmon_from m' (mon_now now dir) (last_snap d ob) (S i) tr')%list
+    end.
+End HMon.
